@@ -1,30 +1,36 @@
 """C07 — the front end is total: any text yields diagnostics, never a crash or hang."""
-from harness import frontfuzz, chk
+from harness import frontfuzz, chk, lexer
 
 ID = "C07"
-MODULES = ["HeraProofs.Props.C10", "HeraProofs.Props.C16", "HeraProofs.Props.C09"]
+MODULES = ["HeraProofs.Props.C07", "HeraProofs.Props.C10", "HeraProofs.Props.C16", "HeraProofs.Props.C09"]
 GENERATED_DEPS = []
-EXPLANATION = ("The parts of the front end that are modelled in Lean are total functions whose termination Lean has checked and "
-               "which are corresponded with the real code on arbitrary (also malformed) input: the string-literal reader "
-               "(StrLit.readBody: every iteration consumes a character, C10_read_range holds for every text), the conditional-"
-               "compilation evaluator (Ifdef.scan / evalGo, C16_ifdef for every structure), the type checker over arbitrary "
-               "operation lists with operands of any kind and count (Chk.typecheck, C09_op_iff). The whole pipeline - lexer, "
-               "conditionals, parser with includes, checker, preprocessor in every mode - is decided by the fuzz stream with a "
-               "watchdog: random ASCII incl. NUL and control characters, every operation name with operands of arbitrary kinds "
-               "and counts, and valid programs damaged by insertion of dangerous fragments, deletion, truncation and cutting.")
-ASSUMPTIONS = ["no executable Lean model of the whole lexer + recursive-descent parser exists here: totality of the pipeline is "
-               "decided by the fuzz stream on the real code (a sampled, not a proved, for-all)",
+EXPLANATION = ("Theorems over the lexer model (every loop termination-checked by Lean; corresponded with the real Lexer token by "
+               "token incl. line and column on valid, damaged and random ASCII texts): C07_token_progress (every token but EOF "
+               "consumes at least one character, whatever the text), C07_lexer_terminates (the token stream of any text ends with "
+               "EOF and has at most one token per character plus one: the lexer cannot loop, stall or run past the end), with "
+               "skip_le, readBody_rest_lt, readCharBody_rest_lt, tokenAt_eof, lexGo_ends. Further total, corresponded models: "
+               "the string-literal reader (C10_read_range), conditional compilation (C16_ifdef), the type checker over arbitrary "
+               "operation lists with operands of any kind and count (C09_op_iff). The rest of the pipeline - recursive-descent "
+               "parser with includes, preprocessor, all four modes - is decided by the watchdog fuzz stream on the real code: "
+               "random ASCII incl. NUL and control characters, every operation name with arbitrary operands, damaged valid "
+               "programs, hostile includes, and all ordered pairs of 46 statements sharing symbols.")
+ASSUMPTIONS = ["the recursive-descent parser (match_op / match_value / match_include, error recovery) is not modelled in Lean: its "
+               "totality is decided by the fuzz stream on the real code (a sampled, not a proved, for-all)",
+               "the lexer model covers ASCII texts (hera rejects other files); str.isalpha / isdigit / isspace modelled for ASCII",
                "a hang is a front-end call that does not return within 8 s on inputs of at most a few hundred characters"]
 
 
 def run(ctx):
     thorough, seed = ctx["thorough"], ctx["seed"]
     r = frontfuzz.check(seed, 40000 if thorough else 4000)
+    lx = lexer.check(seed + 3, 60000 if thorough else 6000)
+    r["violations"] += lx["violations"]
+    r["disagreements"] += lx["disagreements"]
     grid, items = chk.check_grid(False, seed)
     r["violations"] += [v for v in grid["violations"] if v.get("property") == "C07"]
-    r["evaluations"] += len(items)
-    r["distinct_nontrivial"] = r["distinct"] + len({it["text"] + it.get("mode", "") for it in items})
-    r["streams"] = {"frontfuzz": r["evaluations"] - len(items), "grid": len(items)}
+    r["evaluations"] += len(items) + lx["evaluations"]
+    r["distinct_nontrivial"] = r["distinct"] + lx["distinct"] + len({it["text"] + it.get("mode", "") for it in items})
+    r["streams"] = {"frontfuzz": r["evaluations"] - len(items) - lx["evaluations"], "grid": len(items), "lexer": lx["evaluations"]}
     r["rule"] = ("texts: random ASCII 0..127, punctuation soup, control characters; every operation name x operands of arbitrary kind and "
                  "count; generated valid programs with 0-4 edits (dangerous fragment inserted, deletion, truncation, cut) and "
                  "#include lines naming missing / directory / NUL / binary / self-including files; x 4 modes")
